@@ -11,6 +11,10 @@ Nothing here executes barter-rs; it is graph analysis of the compiler's MIR.
 from functools import lru_cache
 
 EXIT = -1
+_NOT_MUTATORS = ("std::iter::Iterator::", "std::future::", "std::pin::", "std::ops::Try", "std::ops::Deref", "std::task::", "std::fmt::",
+                 "core::fmt::", "futures::", "futures_util::", "tokio::", "tokio_stream::", "std::clone::", "std::borrow::", "std::convert::",
+                 "std::option::Option::<T>::as_mut", "std::mem::drop", "prettytable::", "std::io::", "std::collections::hash_map::OccupiedEntry",
+                 "std::collections::hash_map::VacantEntry", "std::collections::hash_map::Entry")
 WORKSPACE = ("barter", "barter_data", "barter_execution", "barter_instrument", "barter_integration")
 
 
@@ -69,7 +73,7 @@ def _children(term):
                         yield y
 
 
-_HEADS = {"param", "upvar", "local", "const", "fnitem", "call", "bin", "un", "agg", "proj", "cast", "discr",
+_HEADS = {"mutated", "param", "upvar", "local", "const", "fnitem", "call", "bin", "un", "agg", "proj", "cast", "discr",
           "phi", "cparam", "yielded", "env"}
 
 
@@ -209,6 +213,8 @@ def render(t):
         return "phi(%s)" % " | ".join(render(a) for a in t[1])
     if h == "cparam":
         return "$%d" % t[1]
+    if h == "mutated":
+        return "mut[%s](%s)" % (",".join(x.split("::")[-1] for x in t[2]), render(t[1]))
     if h == "yielded":
         return "resume"
     return str(t)
@@ -448,6 +454,32 @@ class Body:
                     defs.setdefault(d["l"], []).append((bi, None, "yield", t))
         self.defs = defs
         self.partial = partial
+        # in-place mutation of non-parameter locals through `&mut local` call arguments (x.sort(), x.push(..), ...):
+        # invisible to use-def provenance, so recorded here and surfaced as a ("mutated", ..) wrapper by local_term
+        inplace = {}
+        for b in self.blocks:
+            if b["cleanup"]:
+                continue
+            t = b["term"]
+            if not (t and t["t"] == "call" and "def" in t["f"]):
+                continue
+            if t.get("exp") and t["exp"].startswith("m:"):
+                continue
+            name = t["f"]["def"]
+            if name.startswith(_NOT_MUTATORS):
+                continue
+            for a in t["args"]:
+                q = a.get("m") or a.get("c")
+                if q is None or q["p"]:
+                    continue
+                ds = defs.get(q["l"], [])
+                if len(ds) == 1 and ds[0][2] == "stmt":
+                    rv = ds[0][3]["rv"]
+                    if rv["r"] == "ref" and rv["mut"] and not rv["p"]["p"]:
+                        L = rv["p"]["l"]
+                        if L > self.argc and defs.get(L):
+                            inplace.setdefault(L, set()).add(short(name))
+        self.inplace = inplace
 
     # ------------------------------------------------------------------ provenance
     def local_term(self, l, depth=0):
@@ -490,6 +522,8 @@ class Body:
         else:
             alts = tuple(sorted(set(self._def_term(d, depth + 1) for d in ds), key=repr))
             t = alts[0] if len(alts) == 1 else ("phi", alts, l)
+        if l in self.inplace and t[0] not in ("param", "env", "cparam"):
+            t = ("mutated", t, tuple(sorted(self.inplace[l])))
         self._term_cache[key] = t
         return t
 
@@ -917,7 +951,7 @@ def accessor_summary(facts, callee):
     if b.stores():
         return None
     rt = b.return_term()
-    bad = is_mentioned(rt, lambda t: t[0] in ("local", "phi", "env", "yielded", "cparam", "upvar"))
+    bad = is_mentioned(rt, lambda t: t[0] in ("local", "phi", "env", "yielded", "cparam", "upvar", "mutated"))
     if bad:
         return None
     _ACC[key] = rt
@@ -945,6 +979,8 @@ def subst_params(term, args):
         return ("discr", subst_params(term[1], args), term[2], term[3])
     if h == "phi":
         return ("phi", tuple(subst_params(a, args) for a in term[1]), None)
+    if h == "mutated":
+        return ("mutated", subst_params(term[1], args), term[2])
     return term
 
 
@@ -970,6 +1006,8 @@ def subst(term, f):
         return ("discr", subst(term[1], f), term[2], term[3])
     if h == "phi":
         return ("phi", tuple(subst(a, f) for a in term[1]), term[2] if len(term) > 2 else None)
+    if h == "mutated":
+        return ("mutated", subst(term[1], f), term[2])
     return term
 
 
